@@ -96,7 +96,7 @@ func genCase(t *rapid.T) Case {
 		FailAt:   rapid.IntRange(0, 40).Draw(t, "failAt"),
 		FailHow:  rapid.IntRange(0, 3).Draw(t, "failHow"),
 		FlipMask: rapid.Uint64().Draw(t, "flipMask"),
-		Deep:     rapid.SampledFrom([]int{0, 0, 0, 0, 0, 0, 0, 0, 0, 0, 0, 0, 0, 0, 0, 0, 0, 0, 0, 0, 0, 0, 0, 0, 0, 0, 0, 0, 0, 0, 5, 16, 31, 32, 33, 64, 65, 130}).Draw(t, "deep"),
+		Deep:     rapid.SampledFrom([]int{0, 0, 0, 0, 0, 0, 0, 0, 0, 0, 0, 0, 0, 0, 0, 0, 0, 0, 0, 0, 0, 0, 0, 0, 0, 0, 0, 0, 0, 0, 5, 16, 31, 32, 33, 64, 65, 130, 200, 201, 257, 1030}).Draw(t, "deep"),
 		Upper:    rapid.Bool().Draw(t, "upper"),
 		Poison:   rapid.IntRange(0, 3).Draw(t, "poison") == 0,
 	}
@@ -866,6 +866,22 @@ func classify(c Case) ([]string, bool) {
 	}
 	if _, _, err := refwkb.Encode(g, false, refwkb.EWKB); err != nil {
 		cl = append(cl, "not-encodable")
+	}
+	emptyGCs, members := 0, 0
+	g.Walk(func(x *model.G) {
+		members++
+		if x.IsCollection() && len(x.Members) == 0 {
+			emptyGCs++
+		}
+	})
+	if members > 250 {
+		cl = append(cl, "members>250")
+	}
+	if emptyGCs >= 250 {
+		cl = append(cl, "member-less-collections>=250")
+	}
+	if c.Deep >= 200 {
+		cl = append(cl, "tower>=200")
 	}
 	return cl, nt
 }
